@@ -164,68 +164,77 @@ def _validate_role(ctx):
 
 
 def rule_build_validate(ctx):
-    r = RuleResult('MUST-build-validate', 'all build* functions call the validation role with (time_to_live, time_to_idle) on every path before '
-                   'constructing the cache; the validation panics iff a duration exceeds exactly 1000 * 365 * 24 * 3600 s (inclusive limit: '
-                   '`d <= limit` on the Duration itself)')
+    r = RuleResult('MUST-build-validate', 'every function that hands the builder\'s durations to a cache constructor has, on every path that reaches the constructor, established for '
+                   'time_to_live and for time_to_idle: it is None, or `d <= Duration::from_secs(1000 * 365 * 24 * 3600)` holds for the Duration itself (inclusive limit); the '
+                   'paths on which that comparison is false panic; every public build* goes through such a function')
+    from .symex import PathLimit
     prog = ctx.prog
-    roles = _validate_role(ctx)
-    if len(roles) != 1:
-        raise CheckFailure('MUST-build-validate: validation role not found (%s)' % roles)
-    v = roles[0]
     builds = [n for n in prog.bodies if n.startswith(('sync::builder::CacheBuilder::build', 'unsync::builder::CacheBuilder::build')) and prog.bodies[n].kind != 'closure']
     ctor = {n for n in prog.bodies if n.endswith('Cache::with_everything')}
-    # every function that hands builder durations to the cache constructor validates them first ...
-    direct = sorted(n for n in prog.bodies if (prog.callees(n) & ctor) and n.startswith(('sync::builder::', 'unsync::builder::')))
+    direct = sorted(n for n in prog.bodies if (prog.callees(n) & ctor) and n.startswith(('sync::builder::', 'unsync::builder::')) and prog.bodies[n].kind != 'closure')
+    if not direct or not ctor:
+        raise CheckFailure('MUST-build-validate: no builder function constructing a cache found')
+
+    def is_limit(t):
+        return isinstance(t, tuple) and t and t[0] == 'call' and str(t[1]).endswith('Duration::from_secs') and t[2] and t[2][0] == ('c', THOUSAND_YEARS)
     for nid in direct:
-        b = prog.bodies[nid]
-        dom = b.dominators()
-        vblocks = [bi for bi, t in b.calls() if v in prog.call_targets(b, t)[0]]
-        cblocks = [bi for bi, t in b.calls() if set(prog.call_targets(b, t)[0]) & ctor]
-        ok = bool(vblocks) and all(any(vb in dom.get(cb, ()) for vb in vblocks) for cb in cblocks)
-        r.instance(function=nid, constructs_cache=True, validates_before_construct=ok)
-        if not ok:
-            r.violate(nid, 'no-validation', v.split('::')[-1], '%s constructs the cache without (first) validating time_to_live / time_to_idle' % nid, where=ctx.where(nid))
-    # ... and every public build* reaches the constructor only through such a function
+        try:
+            paths = ctx.symex(inline_depth=4, loop_visits=2, inner_diverge=True, inline_pred=lambda n_, bb, d: False if n_ in ctor else None).run(nid)
+        except PathLimit:
+            raise CheckFailure('MUST-build-validate: path limit in %s' % nid)
+        seen = {'time_to_live': [False, False], 'time_to_idle': [False, False]}     # [accepting path with the test true, panicking path with the test false]
+        npaths = 0
+        for p in paths:
+            calls = [e for e in p.events if e[0] == 'call' and e[1] in ctor]
+            for which in ('time_to_live', 'time_to_idle'):
+                # the term that names this duration in the builder: the constructor argument of that name, else the builder's field
+                terms = []
+                for e in calls:
+                    cb = prog.bodies[e[1]]
+                    for i in range(1, cb.argc + 1):
+                        if ALIASES.get(cb.local_name(i), cb.local_name(i)) == which and i - 1 < len(e[2]):
+                            terms.append(e[2][i - 1])
+                lits = []
+                for c, v in p.conds:
+                    if isinstance(c, tuple) and c[0] == 'cmp' and has_field(c, (which,)):
+                        lits.append((c, v))
+                none_known = any(isinstance(c, tuple) and c[0] == 'discr' and v == 0 and has_field(c[1], (which,)) and not any(isinstance(x, tuple) and x and x[0] == 'call' for x in subterms(c[1]))
+                                 for c, v in p.conds)
+                good_true = any(c[1] == 'le' and is_limit(c[3]) and v is True and isinstance(c[2], tuple) and c[2][0] == 'payload' for c, v in lits)
+                good_false = any(c[1] == 'le' and is_limit(c[3]) and v is False and isinstance(c[2], tuple) and c[2][0] == 'payload' for c, v in lits)
+                odd = [fmt(c)[:70] + '==' + str(v) for c, v in lits if not (c[1] == 'le' and is_limit(c[3]) and isinstance(c[2], tuple) and c[2][0] == 'payload')]
+                if calls and not p.diverged:
+                    npaths += 1
+                    ok = (none_known or good_true) and not odd
+                    if good_true:
+                        seen[which][0] = True
+                    r.instance(function=nid, duration=which, reaches_constructor=True, none=none_known, limit_test_true=good_true, other_tests=odd, ok=ok)
+                    if not ok:
+                        r.violate(nid, 'no-validation' if not odd else 'limit-comparison', which, 'a path of %s reaches the cache constructor without having established `%s <= Duration::from_secs(%d)` '
+                                  '(or that it is None)%s' % (nid, which, THOUSAND_YEARS, ('; it tested %s instead' % odd) if odd else ''), where=ctx.where(nid),
+                                  path=[fmt(c)[:70] + ' == ' + str(v) for c, v in p.conds][:8], expected='assert!(d <= Duration::from_secs(1000 * 365 * 24 * 3600)) before constructing')
+                if p.diverged and good_false:
+                    seen[which][1] = True
+                if good_false and not p.diverged and calls:
+                    r.violate(nid, 'limit-comparison', which + '-accepted', 'a path of %s constructs the cache although `%s <= limit` is false on it' % (nid, which), where=ctx.where(nid))
+        for which, (acc, pan) in seen.items():
+            r.instance(function=nid, duration=which, accepting_path_seen=acc, panicking_path_seen=pan)
+            if not (acc and pan):
+                r.violate(nid, 'limit-comparison', which, 'the %s limit test of %s: accept-path seen: %s, panic-path seen: %s -- expected `d <= Duration::from_secs(%d)` on the Duration '
+                          'itself, panic otherwise' % (which, nid, acc, pan, THOUSAND_YEARS), where=ctx.where(nid), expected='assert!(d <= Duration::from_secs(1000 * 365 * 24 * 3600))')
+    # every public build* reaches the constructor only through such a function
     for nid in sorted(builds):
         reach = prog.reachable_from([nid])
         ok = bool(reach & set(direct)) and (nid in direct or not (prog.callees(nid) & ctor))
         r.instance(function=nid, builds_through=sorted(reach & set(direct)), ok=ok)
         if not ok:
-            r.violate(nid, 'no-validation', v.split('::')[-1], '%s does not build the cache through a validating function' % nid, where=ctx.where(nid))
-    # the comparison
-    sx = ctx.symex(inline_depth=2)
-    paths = sx.run(v)
-    for which, pidx in (('time_to_live', 1), ('time_to_idle', 2)):
-        d = ('payload', ('param', pidx), 'Some', 0)
-        seen_ok = seen_panic = False
-        shape_ok = True
-        shape = None
-        for p in paths:
-            for c, val in p.conds:
-                if isinstance(c, tuple) and c[0] == 'cmp' and any(x == ('param', pidx) for x in subterms(c)):
-                    shape = fmt(c)
-                    lim = c[3] if c[1] == 'le' and c[2] == d else None
-                    good = lim is not None and isinstance(lim, tuple) and lim[0] == 'call' and str(lim[1]).endswith('Duration::from_secs') and lim[2] and lim[2][0] == ('c', THOUSAND_YEARS)
-                    if not good:
-                        shape_ok = False
-                    if val is True and not p.diverged:
-                        seen_ok = True
-                    if val is False and p.diverged:
-                        seen_panic = True
-                    if val is True and p.diverged and not any(isinstance(c2, tuple) and c2[0] == 'cmp' and v2 is False for c2, v2 in p.conds):
-                        shape_ok = False
-        ok = seen_ok and seen_panic and shape_ok
-        r.instance(function=v, duration=which, comparison=shape, accepts_when_true=seen_ok, panics_when_false=seen_panic, exact_shape=shape_ok)
-        if not ok:
-            r.violate(v, 'limit-comparison', which, 'the %s limit test is `%s` (accept-path seen: %s, panic-path seen: %s): expected `d <= Duration::from_secs(%d)` on the '
-                      'Duration itself, panic otherwise' % (which, shape, seen_ok, seen_panic, THOUSAND_YEARS), where=ctx.where(v),
-                      expected='assert!(d <= Duration::from_secs(1000 * 365 * 24 * 3600))')
-    c = ctx.prog.consts.get('common::builder_utils::YEAR_SECONDS')
-    if c is not None:
-        ok = c.get('val') == 365 * 24 * 3600
-        r.instance(constant='YEAR_SECONDS', value=c.get('val'), ok=ok)
-        if not ok:
-            r.violate('common::builder_utils::YEAR_SECONDS', 'const-value', 'YEAR_SECONDS', 'YEAR_SECONDS is %s' % c.get('val'))
+            r.violate(nid, 'no-validation', 'build', '%s does not build the cache through a validating function' % nid, where=ctx.where(nid))
+    for cname, c in ctx.prog.consts.items():
+        if cname.endswith('::YEAR_SECONDS'):
+            ok = c.get('val') == 365 * 24 * 3600
+            r.instance(constant='YEAR_SECONDS', value=c.get('val'), ok=ok)
+            if not ok:
+                r.violate(cname, 'const-value', 'YEAR_SECONDS', 'YEAR_SECONDS is %s' % c.get('val'))
     r.require_floor(6, 'build functions + limit comparisons')
     return r
 
@@ -324,7 +333,8 @@ def rule_default_consts(ctx):
 
 
 ALLOWED_INITCAP_CALLS = ('std::option::Option::map', 'std::option::Option::unwrap_or_default', 'std::option::Option::unwrap_or',
-                         'saturating_add', 'with_capacity_and_hasher', 'std::option::Option::unwrap_or_else', 'checked_add', 'wrapping_add')
+                         'saturating_add', 'with_capacity_and_hasher', 'std::option::Option::unwrap_or_else', 'checked_add', 'wrapping_add',
+                         'std::option::Option::map_or', 'std::option::Option::map_or_else', 'std::option::Option::and_then', 'std::cmp::Ord::min', 'std::cmp::min')
 
 
 def _initcap_taint(ctx, b, seeds):
@@ -464,7 +474,7 @@ def rule_initcap_sink(ctx):
                 tainted_args = [i for i, a in enumerate(t['args']) if op_t(a)]
                 if not tainted_args:
                     continue
-                if ext and str(ext).endswith(('Option::map', 'Option::and_then', 'Option::unwrap_or_else')):
+                if ext and str(ext).endswith(('Option::map', 'Option::and_then', 'Option::unwrap_or_else', 'Option::map_or', 'Option::map_or_else')):
                     for c in passed:
                         closure_seeds.setdefault(c, set()).add(2)
                 if rnd == 0:
@@ -534,5 +544,47 @@ def rule_store_config(ctx):
                             r.violate(nid, 'config-not-stored-verbatim', f, '%s stores `%s` into %s.%s on a path (conditions: %s): the cache no longer holds / reports exactly the '
                                       'configured %s' % (nid, fmt(v)[:60], adt_name.split('::')[-1], f, [fmt(c)[:40] + '==' + str(v_) for c, v_ in p.conds][:4], f),
                                       where=ctx.where(nid), expected='%s: %s  (the parameter itself)' % (f, f))
+    # ... and on the way there: every in-crate call that hands a value to a parameter named max_capacity / time_to_live / time_to_idle passes
+    # it on verbatim (a parameter or field projection, `Some(param)` for the plain constructors, or the literal None) -- nothing filtered or derived
+    def verbatim(v):
+        if v == ('aggr', 'std::option::Option', 'None', ()):
+            return True
+        if isinstance(v, tuple) and v and v[0] == 'aggr' and v[1] == 'std::option::Option' and v[2] == 'Some' and len(v[3]) == 1:
+            v = v[3][0]
+        x = v
+        while isinstance(x, tuple) and x and x[0] == 'fld':
+            x = x[1]
+        return isinstance(x, tuple) and x and x[0] == 'param'
+    all_ctors = set()
+    for adt_name, kind in targets:
+        all_ctors |= {nid for nid, b in prog.bodies.items() if b.kind != 'closure' and any(
+            s_['st'] == 'assign' and s_['rv']['rv'] == 'aggr' and s_['rv'].get('kind') == 'adt' and norm(s_['rv'].get('adt') or '') == adt_name for _, _, s_ in b.stmts())}
+    chain = sorted(n_ for n_, b_ in prog.bodies.items() if b_.kind != 'closure' and n_ not in all_ctors and (prog.reachable_from([n_]) & all_ctors)
+                   and n_.startswith(('sync::', 'unsync::')) and not any(x in n_ for x in ('::tests::', 'test_')))
+    for F in chain:
+        bF = prog.bodies[F]
+        try:
+            pathsF = [p for p in ctx.symex(inline_depth=0, loop_visits=2, inline_pred=lambda n_, bb, d: False).run(F) if not p.diverged]
+        except PathLimit:
+            continue
+        seen_sites = set()
+        for p in pathsF:
+            for e in p.events:
+                if e[0] != 'call' or e[1] not in prog.bodies or prog.bodies[e[1]].kind == 'closure':
+                    continue
+                cb = prog.bodies[e[1]]
+                for i in range(1, cb.argc + 1):
+                    pn = ALIASES.get(cb.local_name(i), cb.local_name(i))
+                    if pn in WANT and i - 1 < len(e[2]):
+                        ok = verbatim(e[2][i - 1])
+                        if (e[1], e[3], pn, ok) in seen_sites:
+                            continue
+                        seen_sites.add((e[1], e[3], pn, ok))
+                        n += 1
+                        r.instance(caller=F, callee=e[1], parameter=pn, argument=fmt(e[2][i - 1])[:60], verbatim=ok)
+                        if not ok:
+                            r.violate(F, 'config-not-passed-verbatim', pn, '%s passes `%s` as %s to %s: the configured value is filtered / derived on its way into the cache, so the cache no '
+                                      'longer holds (and policy() no longer reports) exactly what it was built with' % (F, fmt(e[2][i - 1])[:60], pn, e[1]), where=ctx.where(F, e[3]),
+                                      expected='%s passed on unchanged' % pn)
     r.require_floor(6 if ctx.has_sync else 3, 'stored configuration fields')
     return r
